@@ -167,6 +167,9 @@ def check(ctx):
     # the declared witness type is what the scope records: alias definitions, alias resolution and the witness table itself
     from . import c04
     c04.group_rule(ctx, 'R05.10', r'^(ast::Scope::(insert_witness|insert_alias|resolve)(::\{closure#\d+\})?|types::AliasedType::(resolve|resolve_builtin)(::\{closure#\d+\})?|types::BuiltinAlias::resolve|<ast::Program as ast::AbstractSyntaxTree>::analyze|ast::Program::analyze)$', 'recording of declared witness types (alias table, alias resolution, witness table): complete bodies', 4)
+    from . import c03
+    from .. import guards as G
+    c04.table_rule(ctx, 'R05.11', lambda p: bool(c03.TYPING.match(p)), 'the typing functions that determine the type a witness expression is declared at', G.GUARD_FIELDS)
     if ctx.tier == 'thorough':
         from .. import witness
         witness.run(ctx, 'R05.W', ['W1', 'W3'])
